@@ -293,6 +293,28 @@ func cmdCheck(argv []string) int {
 	sort.Strings(pkgPaths)
 	tl := time.Now()
 	prog, pkgs, err := load(overlay, pkgPaths)
+	// A harness file that no longer type-checks against the current tree (a function it
+	// names was renamed, say) is dropped and the load repeated: the harnesses that live in
+	// other files still run and may report a violation; the dropped ones make the result
+	// inconclusive (exit 3), never a violation and never a pass.
+	staleDropped := map[string]bool{}
+	for tries := 0; err != nil && tries < 4; tries++ {
+		fmt.Println(err)
+		dropped := 0
+		for abs := range overlay {
+			base := filepath.Base(abs)
+			if (strings.HasPrefix(base, "zz_verif_") || strings.Contains(abs, "/verifh/")) && strings.Contains(err.Error(), abs+":") {
+				delete(overlay, abs)
+				staleDropped[base] = true
+				dropped++
+				fmt.Printf("HARNESS-STALE dropping %s and retrying with the other harness files\n", base)
+			}
+		}
+		if dropped == 0 {
+			break
+		}
+		prog, pkgs, err = load(overlay, pkgPaths)
+	}
 	if err != nil {
 		fmt.Println(err)
 		fmt.Println("INCONCLUSIVE property=" + *prop + " harness does not type-check against the current tree")
@@ -307,6 +329,7 @@ func cmdCheck(argv []string) int {
 		scope  string
 	}
 	var allRepl []scopedRepl
+	var staleScopes []string
 	for dir, reps := range repl {
 		pp := "github.com/mimecast/dtail/" + dir
 		sp := pkgs[pp]
@@ -317,6 +340,11 @@ func cmdCheck(argv []string) int {
 			f := sp.Func(r[1])
 			if f == nil {
 				fmt.Printf("HARNESS-STALE replacement function %s not found in %s\n", r[1], pp)
+				if len(staleDropped) > 0 && r[2] != "" {
+					// it lived in a dropped file: the harnesses it was meant for do not run
+					staleScopes = append(staleScopes, r[2])
+					continue
+				}
 				return 3
 			}
 			allRepl = append(allRepl, scopedRepl{r[0], f, r[2]})
@@ -394,6 +422,12 @@ func cmdCheck(argv []string) int {
 			if sp == nil {
 				fmt.Printf("HARNESS-STALE package %s not loaded\n", j.h.Pkg)
 				return
+			}
+			for _, sc := range staleScopes {
+				if strings.HasPrefix(j.h.Name, sc) {
+					fmt.Printf("HARNESS-STALE %s not run: a stand-in it needs lived in a dropped harness file\n", j.h.Name)
+					return
+				}
 			}
 			sp.Build()
 			entry := sp.Func(j.h.Entry)
